@@ -46,6 +46,7 @@ Inductive dcast :=
 | DcVec               (* own TypeId; psf marker needs all; else first element that answers (before 178eca9) *)
 | DcVecNoneIfEmpty    (* DcVec + NoneLayerMarker iff the Vec is empty *)
 | DcReload            (* only the NoneLayerMarker query is forwarded *)
+| DcReloadTry         (* the same through a non-blocking `try_read!` (not answered while a reload is in progress) *)
 | DcLayeredC          (* own TypeId, else subscriber.or_else(inner) *)
 | DcLayeredS          (* own TypeId; psf marker: and; else subscriber.or_else(inner) *)
 | DcFiltered.         (* own / S / F / psf marker *)
@@ -55,7 +56,8 @@ Inductive cls :=
 | Fwd                                              (* exactly one call of the same method on the inner value, same arguments in order *)
 | FwdOpt (none : lit)                              (* Option: Some -> forward, None -> the literal *)
 | FwdAll (c : comb)                                (* Vec *)
-| FwdLock (poisoned : lit)                         (* reload: forward through the read/write lock; the literal is the poisoned-while-panicking fallback *)
+| FwdLock (poisoned : lit)                         (* reload: forward through the read/write lock, acquired with the BLOCKING read()/write(); the literal is the poisoned-while-panicking fallback *)
+| FwdTryLock (busy : lit)                          (* the same with try_read()/try_write(): whenever the lock is busy the callback is skipped and the literal returned *)
 | Missing                                          (* not overridden: the trait default applies *)
 | Seq2 (o : order) (m_inner m_outer : string)      (* Layered: one call on each side, in that order; result unit *)
 | Gate (m_outer m_inner : string) (clears : bool)  (* if subscriber.m(..) { inner.m(..) } else { [clear_enabled();] false } *)
